@@ -361,6 +361,46 @@ func (p *Prog) DeepOrigins(v ssa.Value) []Origin {
 	return out
 }
 
+// UpStrings renders an origin; a parameter of a function that is called from comdex code
+// is replaced by what its call sites pass (two levels), so that a value handed to an
+// extracted helper is recognised as the caller's value. Names, not objects, are compared:
+// three handlers passing msg.AppId to one helper agree.
+func (p *Prog) UpStrings(o Origin, depth int) []string {
+	pr, isP := o.Val.(*ssa.Parameter)
+	if o.Kind != "param" || !isP || depth > 2 || pr.Parent() == nil {
+		return []string{o.String()}
+	}
+	f := pr.Parent()
+	sites := p.CallSitesOf(f)
+	if len(sites) == 0 || p.handlerSet()[f] {
+		return []string{o.String()}
+	}
+	idx := paramIndex(pr)
+	set := map[string]bool{}
+	for _, cs := range sites {
+		args := cs.Common().Args
+		if idx < 0 || idx >= len(args) {
+			return []string{o.String()}
+		}
+		for _, o2 := range p.Origins(args[idx]) {
+			o3 := o2
+			o3.Path = append(append([]string{}, o2.Path...), o.Path...)
+			for _, s := range p.UpStrings(o3, depth+1) {
+				set[s] = true
+			}
+		}
+	}
+	var out []string
+	for s := range set {
+		out = append(out, s)
+	}
+	sort.Strings(out)
+	if len(out) == 0 {
+		return []string{o.String()}
+	}
+	return out
+}
+
 // OriginStrings gives the sorted distinct access paths of the deep origins of v.
 func (p *Prog) OriginStrings(v ssa.Value) []string {
 	set := map[string]bool{}
